@@ -253,13 +253,70 @@ func init() {
 		var ws []string
 		for _, c := range CallSeq(FindFunc(cd, "databaseChannel", "Write")) {
 			switch c {
-			case "brokerBatchRows.EvictOutOfTimeRange", "brokerBatchRows.NewShardGroupIterator", "shardingIterator.HasRowsForNextShard",
+			case "brokerBatchRows.EvictOutOfTimeRange", "brokerBatchRows.NewShardGroupIterator", "shardingIterator.HasRowsForNextShard", "dc.getChannelByShardID",
 				"shardingIterator.FamilyRowsForNextShard", "familyIterator.HasNextFamily", "familyIterator.NextFamily",
 				"channel.GetOrCreateFamilyChannel", "familyChannel.Write":
 				ws = append(ws, c)
 			}
 		}
 		sb.WriteString("def channelWriteCalls : List String := " + LeanStrList(ws) + "\n\n")
+		// the shard count the batch is sharded with, and where the shard's channel is looked up
+		fsetD, cd2, err := ParseFile(repo, "replica/channel_database.go")
+		if err != nil {
+			return "", err
+		}
+		shardArg, lookup := "", ""
+		if wf := FindFunc(cd2, "databaseChannel", "Write"); wf != nil {
+			ast.Inspect(wf.Body, func(n ast.Node) bool {
+				if as, ok := n.(*ast.AssignStmt); ok && len(as.Rhs) == 1 {
+					if call, ok := as.Rhs[0].(*ast.CallExpr); ok {
+						switch exprName(call.Fun) {
+						case "brokerBatchRows.NewShardGroupIterator":
+							if len(call.Args) == 1 {
+								shardArg = c16Src(fsetD, call.Args[0])
+							}
+						}
+						if len(as.Lhs) == 2 && c16Src(fsetD, as.Lhs[0]) == "channel" {
+							lookup = c16Src(fsetD, as.Rhs[0])
+						}
+					}
+				}
+				return true
+			})
+		}
+		def("channelWriteShardCountArg", shardArg)
+		def("channelWriteChannelLookup", lookup)
+		s, err = c16BodySrc(fsetD, FindFunc(cd2, "databaseChannel", "getChannelByShardID"))
+		if err != nil {
+			return "", fmt.Errorf("getChannelByShardID: %w", err)
+		}
+		def("getChannelByShardIDSrc", s)
+
+		// --- series/metric/row_flat_decoder.go: per-row reset of the decoder's scratch state
+		fsetF, fdc, err := ParseFile(repo, "series/metric/row_flat_decoder.go")
+		if err != nil {
+			return "", err
+		}
+		s, err = c16BodySrc(fsetF, FindFunc(fdc, "BrokerRowFlatDecoder", "resetForNextDecode"))
+		if err != nil {
+			return "", fmt.Errorf("resetForNextDecode: %w", err)
+		}
+		def("flatResetForNextDecodeSrc", s)
+		var fc []string
+		for _, c := range CallSeq(FindFunc(fdc, "BrokerRowFlatDecoder", "DecodeTo")) {
+			switch c {
+			case "itr.resetForNextDecode", "itr.rebuild", "rowBuilder.Build", "row.FromBlock":
+				fc = append(fc, c)
+			}
+		}
+		sb.WriteString("def flatDecodeToCalls : List String := " + LeanStrList(fc) + "\n\n")
+		var rc []string
+		for _, c := range CallSeq(FindFunc(fdc, "BrokerRowFlatDecoder", "rebuild")) {
+			if strings.HasPrefix(c, "rowBuilder.") || c == "append" {
+				rc = append(rc, c)
+			}
+		}
+		sb.WriteString("def flatRebuildCalls : List String := " + LeanStrList(rc) + "\n\n")
 
 		// --- models/limits.go
 		fsetL, lm, err := ParseFile(repo, "models/limits.go")
